@@ -162,9 +162,26 @@ class FakePool:
 
     def imap_unordered(self, func, iterable, chunksize: int = 1):
         self._check_running()
-        if chunksize != 1:
-            raise NotImplementedError("fake pool: imap_unordered chunksize != 1")
+        if chunksize < 1:
+            raise ValueError(f"Chunksize must be 1+, not {chunksize:n}")
         items = list(iterable)
+        if chunksize != 1:
+            # Pool.imap_unordered with batches: one task per batch (mapstar), the results of a
+            # batch travel in one pickle and are handed out one after the other
+            chunks = [tuple(items[i : i + chunksize]) for i in range(0, len(items), chunksize)]
+            job = _Job(self, "imap_unordered", len(chunks), chunksize)
+            clock = self.sim.hb_send()
+            for idx, chunk in enumerate(chunks):
+                try:
+                    payload = pickle.dumps((func, chunk))
+                except Exception as err:  # noqa: BLE001 - real pool: task fails
+                    job.deliver(idx, False, MaybeEncodingError(repr(err)), None)
+                    continue
+                self.taskq.append((job, idx, payload, clock))
+            self.sim.note("imap_unordered", self.pid, job.jid, len(chunks), chunksize)
+            self.sim.probe("imap_batched")
+            batches = _IMapUnorderedIterator(self, job, whole=True)
+            return (item for batch in batches for item in batch)
         job = _Job(self, "imap_unordered", len(items), 1)
         clock = self.sim.hb_send()
         for idx, arg in enumerate(items):
@@ -274,8 +291,8 @@ class _MapAsyncResult:
 
 
 class _IMapUnorderedIterator:
-    def __init__(self, pool: FakePool, job: _Job) -> None:
-        self.pool, self.job = pool, job
+    def __init__(self, pool: FakePool, job: _Job, whole: bool = False) -> None:
+        self.pool, self.job, self.whole = pool, job, whole
 
     def __iter__(self):
         return self
@@ -293,7 +310,7 @@ class _IMapUnorderedIterator:
         sim.hb_recv(clock)
         job.collected += 1
         if ok:
-            return value[0]
+            return value if self.whole else value[0]
         raise value
 
     next = __next__
